@@ -110,6 +110,13 @@ Definition rnd_step (x : Z) (r : report) : res :=
 (* left end of the i-th interval of the partition of [0, K) induced by x |-> (x*n)/K *)
 Definition lo (K n i : Z) : Z := (i * K + n - 1) / n.
 
+(* ---- sd.NewRandomFixedSubscriber ----
+   builds a NEW list holding a permutation of its argument (which permutation is decided by
+   math/rand: external); the caller's slice - possibly the list a balancer is reading - is
+   left as it was.  Result: (the caller's slice afterwards, the new subscriber's list) *)
+Definition random_fixed (perm : list nat) (hs : list string) : list string * list string :=
+  (hs, map (fun i => nth i hs "") perm).
+
 (* ---- helpers shared by Spec and Corr ---- *)
 Definition oks (os : list res) : list string :=
   flat_map (fun o => match o with Ok h => [h] | _ => [] end) os.
